@@ -6,6 +6,7 @@ then a *fresh instance* of each algorithm base dispatches an instance of type in
 the handler chosen is compared with the nearest-ancestor rule computed here from the MRO.
 """
 
+import units._xh_setup  # noqa: F401
 from ufl.algorithms.transformer import Transformer
 from ufl.core.expr import Expr
 from ufl.core.operator import Operator
